@@ -3,7 +3,8 @@
 #include <frg/spinlock.hpp>
 #include <frg/qs.hpp>
 namespace frgv {
-struct cmutex {           // counting mutex stub
+struct cmutex {           // counting mutex stub: the counters are ghost state of the stub
+	unsigned locks, unlocks, slocks, sunlocks;
 	void lock();
 	void unlock();
 	void lock_shared();
@@ -14,9 +15,13 @@ using A_sl = frg::shared_lock<cmutex>;
 using A_lg = frg::lock_guard<cmutex>;
 using A_tsl = frg::ticket_spinlock;
 using A_ssl = frg::simple_spinlock;
-void frgv_force(cmutex *m) {
+void frgv_force(cmutex *m, A_ul &a, A_ul &b, A_sl &c, A_sl &d) {
 	auto g = frg::guard(m);
 	auto g2 = frg::guard(frg::dont_lock, m);
+	swap(a, b);
+	swap(c, d);
+	A_tsl t; t.lock(); (void)t.is_locked(); t.unlock();
+	A_ssl s; s.lock(); (void)s.is_locked(); s.unlock();
 }
 }
 template class frg::unique_lock<frgv::cmutex>;
